@@ -5,6 +5,7 @@
 -/
 import AuthModel.Generated.CodeInternal
 import AuthModel.Tls
+import AuthModel.Config
 set_option linter.unusedSimpArgs false
 namespace AuthModel
 open Str Go
@@ -32,5 +33,114 @@ theorem code_boolStr (env : Go.Env) (v : Pb.Value) (o : Tls.Oracle) (ho : o.pars
       · simp [Pb.Value.GetStringValue, Pb.Value.GetBoolValue, hn, hk, hs, hB, Tls.boolStr, pure, Except.pure, ho, goParseBool]
     | _ => simp [Pb.Value.GetStringValue, Pb.Value.GetBoolValue, hn, hk, hB, Tls.boolStr, pure, Except.pure]
   · simp [Pb.Value.GetStringValue, Pb.Value.GetBoolValue, hn, hB, Tls.boolStr, pure, Except.pure]
+
+/-! ### internal/config.go: isRootPath, isCookieNameToken -/
+
+theorem strIdx_cons_succ (a : UInt8) (t : Str) (k : Nat) : Go.strIdx (a :: t) ((k : Int) + 1) = Go.strIdx t (k : Int) := by
+  unfold Go.strIdx
+  have h1 : (0 : Int) ≤ (k : Int) + 1 := by omega
+  have h2 : (0 : Int) ≤ (k : Int) := by omega
+  have h3 : ((k : Int) + 1).toNat = k + 1 := by omega
+  simp [h1, h2, h3]
+
+theorem strIdx_cons_zero (a : UInt8) (t : Str) : Go.strIdx (a :: t) (Int.ofNat 0) = .ok a := by
+  simp [Go.strIdx]
+
+/-- a counting loop that reads `s[i]` at every index is a loop over the bytes of `s` (and never indexes out of range) -/
+theorem forIn_index_loop {σ : Type} (s : Str) (st : σ) (g : UInt8 → σ → Except String (ForInStep σ)) :
+    (forIn (m := Except String) ((List.range s.length).map Int.ofNat) st fun i r => (Go.strIdx s i) >>= fun c => g c r)
+      = forIn s st g := by
+  induction s generalizing st with
+  | nil => simp
+  | cons a t ih =>
+    rw [List.length_cons, List.range_succ_eq_map, List.map_cons, List.map_map]
+    simp only [List.forIn_cons, strIdx_cons_zero, bind, Except.bind]
+    have : (forIn (List.map (Int.ofNat ∘ Nat.succ) (List.range t.length)) · fun i r => (Go.strIdx (a :: t) i) >>= fun c => g c r)
+         = (forIn ((List.range t.length).map Int.ofNat) · fun i r => (Go.strIdx t i) >>= fun c => g c r) := by
+      funext st'
+      rw [← List.map_map, List.forIn_map, List.forIn_map, List.forIn_map]
+      simp [strIdx_cons_succ]
+    cases hg : g a st with
+    | error e => rfl
+    | ok v =>
+      cases v with
+      | done b => rfl
+      | yield b =>
+        simp only []
+        have h2 := congrFun this b
+        simp only [bind, Except.bind] at h2 ih ⊢
+        rw [h2, ih]
+
+theorem code_isRootPath (env : Go.Env) (p : Str) : Code.isRootPath env p = .ok (Config.isRootPath p) := by
+  unfold Code.isRootPath Config.isRootPath
+  have hB : B "" = [] := by decide
+  simp [pure, Except.pure, hB]
+
+/-- the per-byte test of `isCookieNameToken` as the Go source writes it -/
+def badTokenByte (c : UInt8) : Bool :=
+  decide (c ≤ 32) || decide (c ≥ 127) || decide (Go.indexByte (B "()<>@,;:\\\"/[]?={}") c ≥ 0)
+
+theorem badTokenByte_spec : ∀ c : UInt8,
+    badTokenByte c = !(decide (32 < c.toNat) && decide (c.toNat < 127) && !(Config.cookieSeparators.contains c)) := by
+  intro c
+  have h : ∀ n : Fin 256, badTokenByte (UInt8.ofNat n.val) =
+      !(decide (32 < (UInt8.ofNat n.val).toNat) && decide ((UInt8.ofNat n.val).toNat < 127) && !(Config.cookieSeparators.contains (UInt8.ofNat n.val))) := by
+    decide +kernel
+  have := h ⟨c.toNat, c.toNat_lt⟩
+  simpa using this
+
+theorem forIn_all_bytes (s : Str) (bad : UInt8 → Bool) :
+    (forIn (m := Except String) s ((none, ()) : Option Bool × Unit) fun c _ =>
+        if bad c = true then Except.ok (ForInStep.done (some false, ())) else Except.ok (ForInStep.yield (none, ())))
+      = .ok (if s.any bad then (some false, ()) else (none, ())) := by
+  induction s with
+  | nil => simp [pure, Except.pure]
+  | cons a t ih =>
+    simp only [List.forIn_cons, List.any_cons]
+    by_cases h : bad a = true
+    · simp [h, bind, Except.bind, pure, Except.pure]
+    · have h' : bad a = false := by simpa using h
+      simp [h', bind, Except.bind]
+      simpa using ih
+
+theorem code_isCookieNameToken (env : Go.Env) (s : Str) :
+    Code.isCookieNameToken env s = .ok (Config.isCookieNameToken s) := by
+  unfold Code.isCookieNameToken
+  simp only [Go.range, Go.len, Int.toNat_natCast]
+  have hloop := forIn_index_loop s ((none, ()) : Option Bool × Unit) (fun c _ =>
+    if badTokenByte c = true then Except.ok (ForInStep.done (some false, ())) else Except.ok (ForInStep.yield (none, ())))
+  simp only [badTokenByte, pure, Except.pure] at hloop ⊢
+  erw [hloop]
+  have hall := forIn_all_bytes s badTokenByte
+  simp only [badTokenByte] at hall
+  erw [hall]
+  unfold Config.isCookieNameToken
+  by_cases h : s.any badTokenByte = true
+  · have hno : s.all (fun c => decide (32 < c.toNat) && decide (c.toNat < 127) && !(Config.cookieSeparators.contains c)) = false := by
+      rw [List.any_eq_true] at h
+      obtain ⟨c, hc, hb⟩ := h
+      rw [badTokenByte_spec] at hb
+      apply Bool.eq_false_iff.mpr
+      intro hall2
+      rw [List.all_eq_true] at hall2
+      have := hall2 c hc
+      rw [this] at hb
+      exact absurd hb (by decide)
+    clear hloop hall
+    simp [h, bind, Except.bind]
+    simpa using hno
+  · have h' : s.any badTokenByte = false := by simpa using h
+    have hyes : s.all (fun c => decide (32 < c.toNat) && decide (c.toNat < 127) && !(Config.cookieSeparators.contains c)) = true := by
+      rw [List.all_eq_true]
+      intro c hc
+      have hb : badTokenByte c = false := by
+        cases hb : badTokenByte c
+        · rfl
+        · exact absurd (List.any_eq_true.mpr ⟨c, hc, hb⟩) (by simp [h'])
+      rw [badTokenByte_spec] at hb
+      simpa using hb
+    clear hloop hall
+    simp [h', bind, Except.bind]
+    simpa using hyes
 
 end AuthModel
